@@ -450,6 +450,11 @@ func ParseURI(uri SIPStr, puri *PsipURI) (ErrorURI, int) {
 			case '0', '1', '2', '3', '4', '5', '6', '7', '8', '9':
 				// in case this might be the port no, compute it
 				portNo = portNo*10 + int(c-'0')
+				if portNo > 65535 {
+					// too big for a port: remember that, but do not let the
+					// accumulator wrap around (checked when the port ends)
+					portNo = 65536
+				}
 			case '[', ']', ':':
 				return ErrURIBadChar, i
 			default:
@@ -523,6 +528,11 @@ func ParseURI(uri SIPStr, puri *PsipURI) (ErrorURI, int) {
 			switch c {
 			case '0', '1', '2', '3', '4', '5', '6', '7', '8', '9':
 				portNo = portNo*10 + int(c-'0')
+				if portNo > 65535 {
+					// too big for a port: remember that, but do not let the
+					// accumulator wrap around (checked when the port ends)
+					portNo = 65536
+				}
 			case ';':
 				puri.Port.Set(s, i)
 				if portNo > 65535 {
